@@ -312,6 +312,47 @@ def c_option_unwrap_or(ex, st, callee, a):
     return [(None, a[1])]
 
 
+@contract(r'^std::option::Option::<.*>::get_or_insert$')
+def c_option_get_or_insert(ex, st, callee, a):
+    v = deref(st, a[0])
+    if v[2] == 'None': upd(st, a[0], some(a[1]))
+    r = a[0]
+    while True:
+        cur = get_path(st.store[r[1]], r[2])
+        if isinstance(cur, tuple) and cur[0] == 'ref': r = cur
+        else: break
+    return [(None, ('ref', r[1], r[2] + (('dc', 'Some'), ('f', 0))))]
+
+
+@contract(r'^std::option::Option::<.*>::insert$')
+def c_option_insert(ex, st, callee, a):
+    upd(st, a[0], some(a[1])); r = a[0]
+    while True:
+        cur = get_path(st.store[r[1]], r[2])
+        if isinstance(cur, tuple) and cur[0] == 'ref': r = cur
+        else: break
+    return [(None, ('ref', r[1], r[2] + (('dc', 'Some'), ('f', 0))))]
+
+
+@contract(r'^std::option::Option::<.*>::as_ref$', r'^std::option::Option::<.*>::as_mut$')
+def c_option_as_ref(ex, st, callee, a):
+    v = deref(st, a[0])
+    if v[2] == 'None': return [(None, NONE)]
+    r = a[0]
+    while True:
+        cur = get_path(st.store[r[1]], r[2])
+        if isinstance(cur, tuple) and cur[0] == 'ref': r = cur
+        else: break
+    return [(None, some(('ref', r[1], r[2] + (('dc', 'Some'), ('f', 0)))))]
+
+
+@contract(r'^std::option::Option::<.*>::(copied|cloned)$')
+def c_option_copied(ex, st, callee, a):
+    v = a[0]
+    if v[2] == 'None': return [(None, NONE)]
+    return [(None, some(deref(st, v[3][0])))]
+
+
 @contract(r'^std::string::String::new$')
 def c_string_new(ex, st, callee, a): return [(None, StringVal(''))]
 
